@@ -11,6 +11,8 @@ Library side (zbus/src/object_server, K1; K3 in the thorough tier):
   D-ERR-REPLY  every call site of dispatch_method_call_try / dispatch_call_to_iface either returns the awaited
                result unchanged or switches on it and answers the Err arm exactly once with
                reply_dbus_error(that error) and the Ok arm not at all (R-COUNT).
+  D-START      in a connection constructor that starts both, `init_socket_reader` cannot precede
+               `start_object_server` (a call read before the dispatcher subscribed is never answered)
   D-FLAG       every Connection::reply* call on the dispatch path (call-graph closure of
                ObjectServer::dispatch_call + DispatchResult::new_async, generated code excluded) is dominated by
                the false edge of a `flags().contains(Flags::NoReplyExpected)` test (R-CTRL).
@@ -517,6 +519,9 @@ def run(ctx):
     library(ctx, f1, "")
     if ctx.tier == "thorough":
         library(ctx, ctx.facts("K3"), "K3:")
+    # D-START: a call read before the dispatcher subscribed is lost (no handler, no reply)
+    from . import C30 as _c30
+    _c30.reader_after_start(ctx, f1, "D-START")
     its = L.interfaces(ctx, cfgs)
     generated(ctx, its, full="K4" in cfgs)
     if "K4" not in cfgs:
